@@ -11,7 +11,27 @@ for d in seeded/*/; do
   if ! git apply --check /verif/$d/patch.diff 2>/dev/null; then echo "$id SKIP (patch no longer applies)"; continue; fi
   git apply /verif/$d/patch.diff
   if ! go build ./cache/... ./client/... ./database/... ./mapper/... ./model/... ./ovsdb/... ./server/... ./updates/... ./modelgen/... >/dev/null 2>&1; then echo "$id SKIP (does not build on HEAD)"; continue; fi
+  # does the stored demonstration still fail with the change on this tree? (later repairs can make a change harmless)
+  demo=$(ls /verif/$d/*_test.go 2>/dev/null | head -1)
+  benign=""
+  if [ -n "$demo" ]; then
+    pkg=$(grep -l "Seeded" $wt/*/ -r --include=*_test.go 2>/dev/null | head -1)
+    pkgdir=$(python3 - "$demo" <<'PY'
+import re,sys
+s=open(sys.argv[1]).read()
+m=re.search(r'^package (\w+)',s,re.M); p=m.group(1)
+if p.endswith('_test'): p=p[:-5]
+print({'server':'server','cache':'cache','client':'client','inmemory':'database/inmemory','ovsdb':'ovsdb','updates':'updates','mapper':'mapper','model':'model','modelgen':'modelgen'}.get(p,''))
+PY
+)
+    if [ -n "$pkgdir" ] && [ "$pkgdir" != "modelgen" ]; then
+      cp $demo $wt/$pkgdir/zz_seeded_demo_test.go
+      if go test -vet=off -count=1 -run Seeded ./$pkgdir/ >/dev/null 2>&1; then benign="yes"; fi
+      rm -f $wt/$pkgdir/zz_seeded_demo_test.go
+    fi
+  fi
   cd /verif
+  if [ "$benign" = "yes" ]; then echo "$id BENIGN (its demonstration passes with the change on this tree: later repairs made it harmless)"; continue; fi
   out=$(VERIF_REPO=$wt VERIF_WORK=/verif/.work/mut timeout 1500 ./check $prop 2>&1 | grep -v "^KNOWN-FINDING")
   if echo "$out" | grep -q "^VIOLATION"; then echo "$id CAUGHT $(echo "$out" | grep -A1 '^VIOLATION' | sed -n 2p | cut -c1-140)"; else echo "$id MISSED $(echo "$out" | tail -1 | cut -c1-100)"; fi
 done
